@@ -261,15 +261,17 @@ class Repo:
         from .classcanon import canon_helper_objects, canon_memo_attributes
         from .gencanon import canon_context_managers, canon_generators
         from .libcanon import canon_library
+        from .deccanon import canon_decorators
         self.canon_failures: List[str] = []
         self.memo_attributes: Dict[str, str] = {}
         self.helper_objects_expanded: Dict[str, int] = {}
         self.context_managers_expanded: Dict[str, str] = {}
         self.generators_rewritten: Dict[str, str] = {}
+        self.decorators_expanded: Dict[str, str] = {}
         for m in self.modules.values():
             m.tree._modname = m.name        # type: ignore[attr-defined]
 
-        passes = [("library idioms", canon_library, None), ("memo attributes", canon_memo_attributes, "memo_attributes"),
+        passes = [("decorators", canon_decorators, "decorators_expanded"), ("library idioms", canon_library, None), ("memo attributes", canon_memo_attributes, "memo_attributes"),
                   ("helper objects", canon_helper_objects, "helper_objects_expanded"),
                   ("context managers", canon_context_managers, "context_managers_expanded"), ("generators", canon_generators, "generators_rewritten")]
         skip: set = set()
